@@ -319,7 +319,14 @@ def illcond_cases(draw, tier):
     s = np.array([10.0 ** (-kexp * i / (n - 1)) for i in range(n)])
     if draw(st.booleans()):
         s[1:-1] = np.sort(10.0 ** (-kexp * np.array(draw(st.lists(st.integers(0, 16), min_size=n - 2, max_size=n - 2))) / 16.0))[::-1]
-    A = draw(gen.matrix_with_svals(n, n, s))                  # U diag(s) W^H with independent unitary factors
+    if draw(st.integers(0, 2)) == 0:
+        # Hermitian (indefinite) with the same spread: short recurrences are tempting here and lose orthogonality
+        n = draw(st.integers(6, 12))
+        s = np.array([10.0 ** (-min(kexp, 8) * i / (n - 1)) for i in range(n)])
+        sg = np.array(draw(st.lists(st.sampled_from([1.0, -1.0]), min_size=n, max_size=n)))
+        A = draw(gen.hermitian_with_spectrum(n, s * sg))
+    else:
+        A = draw(gen.matrix_with_svals(n, n, s))              # U diag(s) W^H with independent unitary factors
     xt = draw(gen.qmat(n, 1, patterns=("generic", "int", "full53")))
     if not xt.any():
         xt[0, 0, 0] = 1.0
